@@ -68,7 +68,17 @@ EDGE = {
     'ASIN': ['1', '-1', '1.0000001', '-1.0000001', '0.5', '2'],
     'ACOS': ['1', '-1', '1.0000001', '-1.0000001', '0.5', '2', '-5'],
     'ACOSH': ['1', '0.9999999', '0', '-3', '10', '1e308'],
-    'DEGREES': ['1e307', '1e308', '-1e308', '3.141592653589793'],
+    'DEGREES': ['1e307', '1e308', '-1e308', '3.141592653589793',
+                # just below / above the argument whose result leaves the
+                # range (1.797e308 / 57.29...)
+                '1e306', '-2e306', '3.13e306', '3.1374e306', '3.1376e306',
+                '3.14e306', '1e-320', '5e-324'],
+    'RADIANS': ['1e308', '-1e308', '1.7976931348623157e308', '6e307',
+                '5.7e307', '5.73e307', '1e307', '180', '1e-306', '1e-320'],
+    'ATAN': ['1e308', '-1e308', '1e-320', '0'],
+    'ASINH': ['1e308', '-1e308', '1e154', '1.4e154', '-1e200', '1e-320'],
+    'ABS': ['-1.7976931348623157e308', '1e308', '-5e-324', '-0'],
+    'SIGN': ['-1.7976931348623157e308', '1e308', '-5e-324', '5e-324', '0'],
     'FACT': ['0', '1', '5', '10', '20', '50', '100', '150', '170', '-1',
              '-5'],
     'FACTDOUBLE': ['0', '1', '2', '5', '6', '10', '11', '50', '99', '100',
